@@ -9,6 +9,7 @@ MCUserTimesQ == { [op |-> "ge", v |-> 15] }
 MCUserTimes == { [op |-> "ge", v |-> 15], [op |-> "lt", v |-> 15] }
 MCUserTimesT == { [op |-> "ge", v |-> 15], [op |-> "lt", v |-> 15], [op |-> "gt", v |-> 10], [op |-> "le", v |-> 20] }
 MCTimeChoices == { <<10, 20>>, <<30, 37>> }
+MCTimeChoices1 == { <<10, 20>> }
 
 \* every/cron x align x offsets x periods x group-by variants
 MCSchedulesQuick ==
